@@ -298,6 +298,17 @@ class TensorEval:
             return -self.ev(f, e.operand, env)
         if isinstance(e, ast.BinOp):
             return self.binop(e.op, self.ev(f, e.left, env), self.ev(f, e.right, env))
+        if isinstance(e, ast.Compare) and len(e.ops) > 1:
+            # a < b < c: pairwise, left to right, short-circuit (each operand evaluated once in Python; ours are pure)
+            sides = [e.left] + list(e.comparators)
+            res = True
+            for op_, a_, b_ in zip(e.ops, sides, sides[1:]):
+                res = self.ev(f, ast.Compare(left=a_, ops=[op_], comparators=[b_]), env)
+                if isinstance(res, np.ndarray):
+                    raise Unknown('chained comparison of arrays')
+                if not res:
+                    return res
+            return res
         if isinstance(e, ast.Compare) and len(e.ops) == 1:
             import operator
             l, r = self.ev(f, e.left, env), self.ev(f, e.comparators[0], env)
